@@ -1,5 +1,5 @@
 (* Props/C07.v -- property C07: budget limits are enforced exactly and the report is accurate. *)
-From SS Require Import Model.Budget Proofs.BudgetCounts Model.Expand Proofs.BudgetTree.
+From SS Require Import Model.Budget Proofs.BudgetCounts Model.Expand Proofs.BudgetTree Proofs.BudgetPerDoc.
 Local Open Scope N_scope.
 
 (* The report of an accepted stream equals independent counts (plain folds) of the event list. *)
@@ -107,6 +107,34 @@ Proof. exact perdoc_after_skip_is_fresh. Qed.
 Check C07_per_document_skip_fresh : forall e,
   e_per_document e = true -> document_started_after_skip e = fresh_document_state e.
 Print Assumptions C07_per_document_skip_fresh.
+
+(* Per-document enforcement, the whole statement: whatever was read before (any counters, any number of documents,
+   an earlier recorded breach), two enforcers at a document boundary give the SAME verdict on the document that
+   starts here and on everything after it -- in particular the verdict a brand-new enforcer gives on that document
+   alone.  The number of documents already read never affects whether a document is accepted. *)
+Theorem C07_document_verdict_is_independent : forall e1 e2 x evs,
+  e_per_document e1 = true -> e_per_document e2 = true -> e_budget e1 = e_budget e2 ->
+  e_depth e1 = 0 -> e_containers e1 = [] -> r_events (e_report e1) + 1 <= max_events (e_budget e1) ->
+  e_depth e2 = 0 -> e_containers e2 = [] -> r_events (e_report e2) + 1 <= max_events (e_budget e2) ->
+  snd (run e1 (RDocStart x :: evs)) = snd (run e2 (RDocStart x :: evs)).
+Proof. exact document_verdict_is_independent. Qed.
+Check C07_document_verdict_is_independent : forall e1 e2 x evs,
+  e_per_document e1 = true -> e_per_document e2 = true -> e_budget e1 = e_budget e2 ->
+  e_depth e1 = 0 -> e_containers e1 = [] -> r_events (e_report e1) + 1 <= max_events (e_budget e1) ->
+  e_depth e2 = 0 -> e_containers e2 = [] -> r_events (e_report e2) + 1 <= max_events (e_budget e2) ->
+  snd (run e1 (RDocStart x :: evs)) = snd (run e2 (RDocStart x :: evs)).
+Print Assumptions C07_document_verdict_is_independent.
+
+Theorem C07_document_verdict_as_if_first : forall e x evs,
+  e_per_document e = true -> e_depth e = 0 -> e_containers e = [] ->
+  r_events (e_report e) + 1 <= max_events (e_budget e) -> 1 <= max_events (e_budget e) ->
+  snd (run e (RDocStart x :: evs)) = snd (run (enforcer_new (e_budget e) true) (RDocStart x :: evs)).
+Proof. exact document_verdict_as_if_first. Qed.
+Check C07_document_verdict_as_if_first : forall e x evs,
+  e_per_document e = true -> e_depth e = 0 -> e_containers e = [] ->
+  r_events (e_report e) + 1 <= max_events (e_budget e) -> 1 <= max_events (e_budget e) ->
+  snd (run e (RDocStart x :: evs)) = snd (run (enforcer_new (e_budget e) true) (RDocStart x :: evs)).
+Print Assumptions C07_document_verdict_as_if_first.
 
 (* The reported maximum depth IS the depth of the document tree: for every document body (forest of
    nodes) that the enforcer accepts, max_depth of the report equals the nesting depth of the forest
